@@ -210,46 +210,103 @@ type kindRow struct {
 	optional      bool
 }
 
-// the switch in option.New
+// The per-kind table of internal/option (help argument name, minimum, maximum, optional), wherever it is written:
+// assignments `x.HelpArgName = "…"`, `x.MinArgs, x.MaxArgs = 1, 1` … or keyed struct-literal fields inside a `case`
+// clause over option Type constants (in `New` or in a helper it calls), or a composite literal keyed by Type
+// constants. Field names are compared case-insensitively; a kind that gets no value keeps "" / 0 / 0 / false.
 func kindTable(ff *factFile) []kindRow {
-	fd := ff.findFuncPkg("internal/option", "New")
-	var rows []kindRow
-	if fd == nil {
-		return rows
+	order := ff.iotaOrderPkg("internal/option", "Type")
+	if len(order) == 0 {
+		return nil
 	}
-	ast.Inspect(fd.Body, func(n ast.Node) bool {
-		sw, ok := n.(*ast.SwitchStmt)
-		if !ok {
-			return true
-		}
-		for _, st := range sw.Body.List {
-			cc := st.(*ast.CaseClause)
-			for _, name := range caseNames(ff.fset, cc) {
-				row := kindRow{name: name}
-				for _, s := range cc.Body {
-					as, ok := s.(*ast.AssignStmt)
-					if !ok || len(as.Lhs) != 1 {
-						continue
-					}
-					lhs := exprStr(ff.fset, as.Lhs[0])
-					rhs := exprStr(ff.fset, as.Rhs[0])
-					switch lhs {
-					case "opt.HelpArgName":
-						row.argName, _ = strconv.Unquote(rhs)
-					case "opt.MinArgs":
-						row.min, _ = strconv.Atoi(rhs)
-					case "opt.MaxArgs":
-						row.max, _ = strconv.Atoi(rhs)
-					case "opt.IsOptional":
-						row.optional = rhs == "true"
-					}
+	isKind := map[string]bool{}
+	rows := map[string]*kindRow{}
+	for _, n := range order {
+		isKind[n] = true
+		rows[n] = &kindRow{name: n}
+	}
+	set := func(names []string, field, rhs string) {
+		for _, n := range names {
+			r := rows[n]
+			if r == nil {
+				continue
+			}
+			switch strings.ToLower(field) {
+			case "helpargname":
+				if v, err := strconv.Unquote(rhs); err == nil {
+					r.argName = v
 				}
-				rows = append(rows, row)
+			case "minargs":
+				if v, err := strconv.Atoi(rhs); err == nil {
+					r.min = v
+				}
+			case "maxargs":
+				if v, err := strconv.Atoi(rhs); err == nil {
+					r.max = v
+				}
+			case "isoptional":
+				if rhs == "true" || rhs == "false" {
+					r.optional = rhs == "true"
+				}
 			}
 		}
-		return false
-	})
-	return rows
+	}
+	fieldOf := func(e ast.Expr) string {
+		switch x := e.(type) {
+		case *ast.SelectorExpr:
+			return x.Sel.Name
+		case *ast.Ident:
+			return x.Name
+		}
+		return ""
+	}
+	// values given inside a node (assignments and keyed literal fields) for the kinds `names`
+	collect := func(names []string, root ast.Node) {
+		ast.Inspect(root, func(n ast.Node) bool {
+			switch x := n.(type) {
+			case *ast.AssignStmt:
+				if len(x.Lhs) == len(x.Rhs) {
+					for k := range x.Lhs {
+						if _, isSel := x.Lhs[k].(*ast.SelectorExpr); isSel {
+							set(names, fieldOf(x.Lhs[k]), exprStr(ff.fset, x.Rhs[k]))
+						}
+					}
+				}
+			case *ast.KeyValueExpr:
+				if id, ok := x.Key.(*ast.Ident); ok && !isKind[id.Name] {
+					set(names, id.Name, exprStr(ff.fset, x.Value))
+				}
+			}
+			return true
+		})
+	}
+	for _, f := range ff.pkg("internal/option") {
+		ast.Inspect(f, func(n ast.Node) bool {
+			switch x := n.(type) {
+			case *ast.CaseClause:
+				names := caseNames(ff.fset, x)
+				all := len(names) > 0
+				for _, nm := range names {
+					all = all && isKind[nm]
+				}
+				if all {
+					for _, st := range x.Body {
+						collect(names, st)
+					}
+				}
+			case *ast.KeyValueExpr:
+				if id, ok := x.Key.(*ast.Ident); ok && isKind[id.Name] {
+					collect([]string{id.Name}, x.Value)
+				}
+			}
+			return true
+		})
+	}
+	var out []kindRow
+	for _, n := range order {
+		out = append(out, *rows[n])
+	}
+	return out
 }
 
 // names of struct fields and package-level vars with map type, per file set (heuristic typing for range detection)
@@ -505,8 +562,38 @@ func dagFacts(ff *factFile) (doneCap, semCap string, statusWrites []string, errA
 		}
 		return s
 	}
-	// 1. channels: every make(chan T[, cap]) of the package
+	// 1. channels: every make(chan T[, cap]) of the package, also through a named channel type
 	semNames := map[string]bool{}
+	semTypes := map[string]bool{} // `type X chan struct{}`
+	chanTypes := map[string]bool{}
+	consts := map[string]string{} // package-level constants with a literal value
+	for _, d := range decls {
+		gd, ok := d.(*ast.GenDecl)
+		if !ok {
+			continue
+		}
+		for _, sp := range gd.Specs {
+			switch x := sp.(type) {
+			case *ast.TypeSpec:
+				if ct, ok := x.Type.(*ast.ChanType); ok {
+					chanTypes[x.Name.Name] = true
+					if exprStr(ff.fset, ct.Value) == "struct{}" {
+						semTypes[x.Name.Name] = true
+					}
+				}
+			case *ast.ValueSpec:
+				if gd.Tok == token.CONST {
+					for i, nm := range x.Names {
+						if i < len(x.Values) {
+							if bl, ok := x.Values[i].(*ast.BasicLit); ok {
+								consts[nm.Name] = bl.Value
+							}
+						}
+					}
+				}
+			}
+		}
+	}
 	var doneCaps, semCaps []string
 	noteMake := func(name string, e ast.Expr) {
 		ce, ok := e.(*ast.CallExpr)
@@ -517,15 +604,21 @@ func dagFacts(ff *factFile) (doneCap, semCap string, statusWrites []string, errA
 		if !ok || id.Name != "make" || len(ce.Args) == 0 {
 			return
 		}
-		ct, ok := ce.Args[0].(*ast.ChanType)
-		if !ok {
+		isSem, isChan := false, false
+		switch ct := ce.Args[0].(type) {
+		case *ast.ChanType:
+			isChan, isSem = true, exprStr(ff.fset, ct.Value) == "struct{}"
+		case *ast.Ident:
+			isChan, isSem = chanTypes[ct.Name], semTypes[ct.Name]
+		}
+		if !isChan {
 			return
 		}
 		c := "0"
 		if len(ce.Args) > 1 {
 			c = exprStr(ff.fset, ce.Args[1])
 		}
-		if exprStr(ff.fset, ct.Value) == "struct{}" {
+		if isSem {
 			semCaps = append(semCaps, c)
 			semNames[name] = true
 		} else {
@@ -551,9 +644,68 @@ func dagFacts(ff *factFile) (doneCap, semCap string, statusWrites []string, errA
 						noteMake(nm.Name, x.Values[i])
 					}
 				}
+			case *ast.ReturnStmt:
+				for _, r := range x.Results {
+					noteMake("", r)
+				}
 			}
 			return true
 		})
+	}
+	// a channel operand is a semaphore: a name a semaphore was made under, or the receiver / a parameter / a field
+	// of a named `chan struct{}` type
+	semVars := map[string]bool{}
+	for _, fd := range funcs {
+		fields := []*ast.Field{}
+		if fd.Recv != nil {
+			fields = append(fields, fd.Recv.List...)
+		}
+		if fd.Type.Params != nil {
+			fields = append(fields, fd.Type.Params.List...)
+		}
+		for _, f := range fields {
+			if id, ok := f.Type.(*ast.Ident); ok && semTypes[id.Name] {
+				for _, nm := range f.Names {
+					semVars[fd.Name.Name+"/"+nm.Name] = true
+				}
+			}
+		}
+	}
+	for _, f := range ff.pkg("dag") {
+		ast.Inspect(f, func(n ast.Node) bool {
+			if fl, ok := n.(*ast.Field); ok {
+				if id, ok := fl.Type.(*ast.Ident); ok && semTypes[id.Name] {
+					for _, nm := range fl.Names {
+						semNames[nm.Name] = true
+					}
+				}
+			}
+			return true
+		})
+	}
+	isSemChan := func(fn string, e ast.Expr) bool {
+		return semNames[lastName(e)] || semVars[fn+"/"+exprStr(ff.fset, e)]
+	}
+	// functions / methods that are "take a slot" (first statement: send on a semaphore) or "give it back" (receive)
+	acquireFns, releaseFns := map[string]bool{}, map[string]bool{}
+	isSemRecv := func(fn string, st ast.Stmt) bool {
+		es, ok := st.(*ast.ExprStmt)
+		if !ok {
+			return false
+		}
+		ue, ok := es.X.(*ast.UnaryExpr)
+		return ok && ue.Op == token.ARROW && isSemChan(fn, ue.X)
+	}
+	for name, fd := range funcs {
+		if len(fd.Body.List) == 0 {
+			continue
+		}
+		if snd, ok := fd.Body.List[0].(*ast.SendStmt); ok && isSemChan(name, snd.Chan) {
+			acquireFns[name] = true
+		}
+		if isSemRecv(name, fd.Body.List[0]) {
+			releaseFns[name] = true
+		}
 	}
 	uniqJoin := func(l []string) string {
 		sort.Strings(l)
@@ -601,9 +753,19 @@ func dagFacts(ff *factFile) (doneCap, semCap string, statusWrites []string, errA
 				}
 				stmts = append(stmts, "send "+nm)
 			case *ast.DeferStmt:
-				stmts = append(stmts, "defer "+exprStr(ff.fset, y.Call.Fun))
+				if fl, ok := y.Call.Fun.(*ast.FuncLit); ok && len(fl.Body.List) == 1 && isSemRecv("", fl.Body.List[0]) {
+					stmts = append(stmts, "defer recv semaphore")
+				} else if releaseFns[lastName(y.Call.Fun)] {
+					stmts = append(stmts, "defer recv semaphore")
+				} else {
+					stmts = append(stmts, "defer "+exprStr(ff.fset, y.Call.Fun))
+				}
 			case *ast.ExprStmt:
-				stmts = append(stmts, exprStr(ff.fset, y.X))
+				if ce, ok := y.X.(*ast.CallExpr); ok && acquireFns[lastName(ce.Fun)] {
+					stmts = append(stmts, "send semaphore")
+				} else {
+					stmts = append(stmts, exprStr(ff.fset, y.X))
+				}
 			default:
 				stmts = append(stmts, fmt.Sprintf("%T", s))
 			}
@@ -618,7 +780,16 @@ func dagFacts(ff *factFile) (doneCap, semCap string, statusWrites []string, errA
 		if len(body.List) == 0 {
 			continue
 		}
-		if snd, ok := body.List[0].(*ast.SendStmt); !ok || !semNames[lastName(snd.Chan)] {
+		takes := false
+		switch y := body.List[0].(type) {
+		case *ast.SendStmt:
+			takes = semNames[lastName(y.Chan)]
+		case *ast.ExprStmt:
+			if ce, ok := y.X.(*ast.CallExpr); ok {
+				takes = acquireFns[lastName(ce.Fun)]
+			}
+		}
+		if !takes {
 			continue
 		}
 		for i, st := range body.List {
@@ -667,7 +838,11 @@ func dagFacts(ff *factFile) (doneCap, semCap string, statusWrites []string, errA
 			case *ast.KeyValueExpr:
 				if fd.Name.Name == "NewGraph" {
 					if k, ok := x.Key.(*ast.Ident); ok {
-						defaults[k.Name] = exprStr(ff.fset, x.Value)
+						v := exprStr(ff.fset, x.Value)
+						if c, ok := consts[v]; ok {
+							v = c // a package-level constant stands for its literal
+						}
+						defaults[k.Name] = v
 					}
 				}
 			}
